@@ -235,6 +235,20 @@ CHECKS['C20'] = dict(
          'Totality of the type lookup for lattice sizes beyond the dump grid is not proved per class.',
     technique='Coq lookup/offering theorems evaluated in the kernel on regenerated config tables + field-by-field correspondence via Flask test client')
 
+CHECKS['C16'] = dict(
+    category='other',
+    text=('PARTIAL, not a proof of the property. Proved in Coq: zero residual at the planted parameters; the least-squares objective is '
+          'invariant under any permutation of rows; partial identifiability of (A,B,C) from three distinct scaled variables; the model of '
+          'the fit-status rule flags success only for a threshold inside the data range and [0,1] with a non-degenerate confidence '
+          'interval and a non-flat curve (the model is evaluated in the kernel on the entries the implementation produced and must agree '
+          'with the reported fit_status). The recovery clause itself (reported threshold within 1% of the planted one, inside its own CI '
+          'and the data range, flagged successful, identical for 4 file/row orders incl. lists of paths) is decided by a seeded numerical '
+          'test against scipy on data placed on the ansatz.'),
+    design_ref='DESIGN.md section 5 C16',
+    note=TB + 'Convergence of MINPACK Levenberg-Marquardt and the Beta-bootstrap quantiles cannot be stated as theorems about this code with the '
+         'tools available; they are exercised, not modelled. Reals axioms for the R theorems.',
+    technique='Coq theorems about the ansatz and the fit-status rule; planted-threshold recovery by seeded numerical test (not a proof)')
+
 NOT_APPLICABLE = {}
 
 PENDING = ['C02', 'C03', 'C04', 'C05', 'C06', 'C07', 'C08', 'C09', 'C10', 'C11', 'C12', 'C13', 'C14', 'C15',
